@@ -888,6 +888,23 @@ func genSimple(r *hx.Rand, spec opSpec, episodes int, faults bool, rep *hx.Repor
 			out = append(out, edit{Kind: "pass"})
 			continue
 		}
+		if r.Chance(1, 12) {
+			// the input is emptied, a pass runs on the empty map, then (most of) the old contents come
+			// back: keys return with the value they had before -- an operator must not diff the refilled
+			// map against what it saw before the map was emptied
+			rep.Count("episode:emptied->pass->refilled-with-the-old-contents")
+			sd := side()
+			out = append(out, edit{Kind: "rebuild", Side: sd, M: map[int]int{}, Hi: markSave}, edit{Kind: "pass"})
+			if r.Chance(1, 3) {
+				out = append(out, edit{Kind: "pass"})
+			}
+			out = append(out, edit{Kind: "rebuild", Side: sd, M: nil, Hi: markRestore})
+			for n := r.Range(0, 2); n > 0; n-- {
+				out = append(out, randEdit(r, sd))
+			}
+			out = append(out, edit{Kind: "pass"})
+			continue
+		}
 		k := r.Intn(100)
 		switch {
 		case k < 25:
@@ -934,6 +951,7 @@ func genSimple(r *hx.Rand, spec opSpec, episodes int, faults bool, rep *hx.Repor
 	}
 	// "rebuild with the same contents": resolve against the running contents
 	cur := [2]map[int]int{{}, {}}
+	saved := [2]map[int]int{{}, {}}
 	for i := range out {
 		e := &out[i]
 		s := e.Side
@@ -946,6 +964,14 @@ func genSimple(r *hx.Rand, spec opSpec, episodes int, faults bool, rep *hx.Repor
 		case "del":
 			delete(cur[s], e.K)
 		case "rebuild":
+			if e.Hi == markSave {
+				saved[s] = cloneMap(cur[s])
+				e.Hi = 0
+			}
+			if e.M == nil && e.Hi == markRestore {
+				e.M = cloneMap(saved[s])
+				e.Hi = 0
+			}
 			if e.M == nil {
 				e.M = cloneMap(cur[s])
 			}
@@ -957,6 +983,12 @@ func genSimple(r *hx.Rand, spec opSpec, episodes int, faults bool, rep *hx.Repor
 	}
 	return out
 }
+
+// markers on a "rebuild" edit while a history is being generated (cleared when it is resolved)
+const (
+	markSave    = -98 // remember the contents this rebuild replaces
+	markRestore = -99 // rebuild with the remembered contents
+)
 
 // ---------------------------------------------------------------- shrinking (delta debugging)
 
